@@ -4,6 +4,8 @@ import (
 	"fmt"
 	"time"
 
+	sdk "github.com/pokt-network/posmint/types"
+
 	"verif/internal/chain"
 )
 
@@ -290,6 +292,11 @@ func slashAlphabet() []Choice {
 		evB("burn(k2,0.5)", chain.Event{Kind: "burn", Who: 2, Sev: "0.5"}),
 		Choice{Label: "evidence(k2)", Block: chain.Block{Evidence: []chain.Evidence{{Val: 2, HeightAgo: 1, Age: time.Second}}}},
 		Choice{Label: "dt=3s", Block: chain.Block{DT: 3 * time.Second}},
+		// governance changes the slashing parameters between two slashes
+		txB("change(SlashFractionDowntime=0.5)", chain.TxSpec{Msg: "change_param", From: 4, Key: "pos/SlashFractionDowntime", Val: mj(sdk.NewDecWithPrec(5, 1))}),
+		txB("change(SlashFractionDoubleSign=0)", chain.TxSpec{Msg: "change_param", From: 4, Key: "pos/SlashFractionDoubleSign", Val: mj(sdk.ZeroDec())}),
+		txB("change(MaxEvidenceAge=1s)", chain.TxSpec{Msg: "change_param", From: 4, Key: "pos/MaxEvidenceAge", Val: mj(time.Second)}),
+		txB("change(StakeMinimum=3min)", chain.TxSpec{Msg: "change_param", From: 4, Key: "pos/StakeMinimum", Val: mj(int64(3 * min))}),
 	)
 	return cs
 }
@@ -336,6 +343,10 @@ func jailAlphabet() []Choice {
 		{Label: "dt=3s", Block: chain.Block{DT: 3 * time.Second}},
 		{Label: "dt=2s", Block: chain.Block{DT: 2 * time.Second}},
 		txB("change(MaxValidators=1)", chain.TxSpec{Msg: "change_param", From: 4, Key: "pos/MaxValidators", Val: `"1"`}),
+		// parameters changed by governance while a validator sits in jail: jailed-until is a stored
+		// time (a new jail duration does not move it); the minimum stake is the current one
+		txB("change(DowntimeJailDuration=10s)", chain.TxSpec{Msg: "change_param", From: 4, Key: "pos/DowntimeJailDuration", Val: mj(10 * time.Second)}),
+		txB("change(StakeMinimum=50min)", chain.TxSpec{Msg: "change_param", From: 4, Key: "pos/StakeMinimum", Val: mj(int64(50 * min))}),
 	}
 }
 
@@ -356,6 +367,8 @@ func lifecycleAlphabet() []Choice {
 		txB("stake(k2,min)", chain.TxSpec{Msg: "stake", From: 2, Amount: min}),
 		txB("stake(k2,2min)", chain.TxSpec{Msg: "stake", From: 2, Amount: 2 * min}),
 		txB("stake(k2,balance+1)", chain.TxSpec{Msg: "stake", From: 2, Amount: 5*min + 1}),
+		txB("stake(k2,balance-fee) everything", chain.TxSpec{Msg: "stake", From: 2, Amount: 5*min - chain.PosFees["stake_validator"]}),
+		txB("stake(k2,balance-fee+1)", chain.TxSpec{Msg: "stake", From: 2, Amount: 5*min - chain.PosFees["stake_validator"] + 1}),
 		txB("unstake(k2)", chain.TxSpec{Msg: "unstake", From: 2}),
 		txB("unstake(k0)", chain.TxSpec{Msg: "unstake", From: 0}),
 		txB("unjail(k0)", chain.TxSpec{Msg: "unjail", From: 0}),
